@@ -62,6 +62,10 @@ def gpo_N(n, rhomax):
 
 # ------------------------------------------------------------------ GPO
 class GpoOracle(Oracle):
+    """Model of GPO.png.  WHEN a learner object is constructed is not prescribed (at construction of the wrapper, at
+    the start of its phase, when the previous phase ends): what is checked is which learner SERVES each phase, with
+    which parameters, for how many rounds, which rewards it receives, and how the validated point is scored."""
+
     name = "C09"
 
     def begin(self, ctx):
@@ -78,18 +82,38 @@ class GpoOracle(Oracle):
         self.log = L.CURRENT
         self.seen = 0
         self.t = 0
-        self.val = {}
+        self.val = {}  # phase index (0-based) -> validation rewards
+        self.validated = {}  # phase index -> the point under validation (own record)
         self.learner_rewards = {}
         self.last_point = {}
-        self.rhos = []
+        self.kwargs = {}  # learner id -> constructor kwargs
+        self.server = {}  # phase (1-based) -> learner id
         self.log.phase = "pull"
-        if self.log.instances:
-            raise Violation("C09.create", "a learner was created at construction")
+        for e in self.log.events:
+            if e[0] == "new":
+                self.kwargs[e[1]] = e[3]
 
     def _events(self):
         ev = self.log.events[self.seen:]
         self.seen = len(self.log.events)
-        return [e for e in ev if e[2] != "query"]
+        ev = [e for e in ev if e[2] != "query"]
+        for e in ev:
+            if e[0] == "new":
+                self.kwargs[e[1]] = e[3]
+        return ev
+
+    def _best(self, x):
+        """x must be the own-recorded validated point of a phase whose validation score is maximal (scores of completed
+        validations, or including a running one: both are admitted)."""
+        done = {k: sum(r) / len(r) for k, r in self.val.items() if len(r) >= self.Lh}
+        anyv = {k: sum(r) / len(r) for k, r in self.val.items()}
+        for score in (done, anyv):
+            if not score:
+                continue
+            best = max(score.values())
+            if any(close(s, best, 1e-9, max(abs(v) for v in self.val[k])) and self.validated.get(k) == x for k, s in score.items()):
+                return True, best
+        return False, (max(done.values()) if done else None)
 
     def after_pull(self, ctx):
         self.t += 1
@@ -102,62 +126,65 @@ class GpoOracle(Oracle):
         i = (t - 1) // (2 * Lh) + 1  # phase 1..N
         w = (t - 1) % (2 * Lh)  # position inside the phase
         self.phase_i, self.w, self.finished = i, w, finished
-        news = [e for e in ev if e[0] == "new"]
         pulls = [e for e in ev if e[0] == "pull"]
-        for e in news:
-            kw = e[3]
-            self.rhos.append(kw.get("rho"))
-        if not j:
-            if pulls:
-                self.last_point[pulls[-1][1]] = _pt(pulls[-1][3])
-            return
-        st = ctx.extra["stats"]
+        self.pulls = pulls
         x = _pt(ctx.x)
+        st = ctx.extra["stats"]
         if finished:
-            if news or pulls:
-                raise Violation("C09.finished", "a learner was created/consulted after all %d phases were over (round %d)" % (N, t))
-            score = {k: sum(r) / len(r) for k, r in self.val.items()}
-            best = max(score.values())
-            V_x = _attr(self.inner, "V_x")
-            ok = [k for k, s in score.items() if close(s, best) and _pt(V_x[k]) == x]
-            if not ok:
-                raise Violation("C09.final", "after all phases pull returned %r, not a validated point of maximal score %r (round %d)"
-                                % (x, best, t), round=t)
-            g = _pt(ctx.algo.get_last_point())
-            okg = [k for k, s in score.items() if close(s, best) and _pt(V_x[k]) == g]
-            if not okg:
-                raise Violation("C09.final", "after all phases get_last_point returned %r, not a validated point of maximal score (round %d)" % (g, t))
-            st.bump("finished_rounds")
+            if j:
+                if pulls:
+                    raise Violation("C09.finished", "a learner was consulted after all %d phases were over (round %d)" % (N, t))
+                ok, best = self._best(x)
+                if not ok:
+                    raise Violation("C09.final", "after all phases pull returned %r, not a validated point of maximal score %r (round %d)"
+                                    % (x, best, t), round=t)
+                g = _pt(L_call("get_last_point", ctx.algo.get_last_point))
+                okg, _ = self._best(g)
+                if not okg:
+                    raise Violation("C09.final", "after all phases get_last_point returned %r, not a validated point of maximal score (round %d)" % (g, t))
+                st.bump("finished_rounds")
             return
-        if w == 0:
-            # first round of phase i: exactly one new learner with (nu_max, rho_max^(2N/(2i+1)))
-            if len(news) != 1:
-                raise Violation("C09.create", "phase %d of %d started with %d new learner(s) (round %d)" % (i, N, len(news), t), round=t)
-            kw = news[0][3]
-            want = self.rm ** (2 * N / (2 * i + 1))
-            if not close(kw.get("rho"), want, 1e-12) or not close(kw.get("nu"), self.numax, 1e-12):
-                raise Violation("C09.params", "learner of phase %d was built with (nu=%r, rho=%r), published (%r, %r)"
-                                % (i, kw.get("nu"), kw.get("rho"), self.numax, want), round=t)
-            if len(set(round(r, 15) for r in self.rhos)) != len(self.rhos):
-                raise Violation("C09.params", "learner parameters are not pairwise distinct: %r" % self.rhos)
-            st.bump("phases_started")
-        elif news:
-            raise Violation("C09.create", "a learner was created in the middle of phase %d (round %d)" % (i, t), round=t)
-        cur = len(self.log.instances) - 1
         if w < Lh:
-            if len(pulls) != 1 or pulls[0][1] != cur:
-                raise Violation("C09.explore", "exploration round %d of phase %d: learner #%d should serve it, pull calls seen on %r"
-                                % (w + 1, i, cur, [e[1] for e in pulls]), round=t)
-            if _pt(pulls[0][3]) != x:
+            # exploration round: exactly one learner is consulted - the phase's learner
+            if len(pulls) != 1:
+                if j:
+                    raise Violation("C09.explore", "exploration round %d of phase %d: %d learners consulted (%r)"
+                                    % (w + 1, i, len(pulls), [e[1] for e in pulls]), round=t)
+                return
+            lid = pulls[0][1]
+            if w == 0:
+                if j and lid in self.server.values():
+                    raise Violation("C09.create", "phase %d of %d is served by learner #%d, which already served phase %r: no new learner"
+                                    % (i, N, lid, [k for k, v in self.server.items() if v == lid]), round=t)
+                self.server[i] = lid
+                if j:
+                    kw = self.kwargs.get(lid, {})
+                    want = self.rm ** (2 * N / (2 * i + 1))
+                    if kw.get("rho") is None or kw.get("nu") is None:
+                        raise HarnessError("cannot observe the parameters learner #%d was built with (positional arguments?)" % lid)
+                    if not close(kw.get("rho"), want, 1e-12) or not close(kw.get("nu"), self.numax, 1e-12):
+                        raise Violation("C09.params", "learner of phase %d was built with (nu=%r, rho=%r), published (%r, %r)"
+                                        % (i, kw.get("nu"), kw.get("rho"), self.numax, want), round=t)
+                    rhos = [round(float(self.kwargs[l]["rho"]), 15) for l in self.server.values()]
+                    if len(set(rhos)) != len(rhos):
+                        raise Violation("C09.params", "learner parameters are not pairwise distinct: %r" % rhos)
+                    st.bump("phases_started")
+            elif j and lid != self.server.get(i):
+                raise Violation("C09.explore", "exploration round %d of phase %d: learner #%r should serve it, learner #%d was consulted"
+                                % (w + 1, i, self.server.get(i), lid), round=t)
+            if j and _pt(pulls[0][3]) != x:
                 raise Violation("C09.explore", "GPO returned %r, the learner proposed %r (round %d)" % (x, pulls[0][3], t))
-            self.last_point[cur] = x
+            self.last_point[i] = x
         else:
-            if pulls:
-                raise Violation("C09.validate", "validation round %d of phase %d consulted learner(s) %r" % (w - Lh + 1, i, [e[1] for e in pulls]), round=t)
-            if x != self.last_point.get(cur):
-                raise Violation("C09.validate", "validation round of phase %d returned %r, the learner's last proposed point is %r (round %d)"
-                                % (i, x, self.last_point.get(cur), t), round=t)
-            st.bump("validation_rounds")
+            if w == Lh:
+                self.validated[i - 1] = x
+            if j:
+                if pulls:
+                    raise Violation("C09.validate", "validation round %d of phase %d consulted learner(s) %r" % (w - Lh + 1, i, [e[1] for e in pulls]), round=t)
+                if x != self.last_point.get(i):
+                    raise Violation("C09.validate", "validation round of phase %d returned %r, the learner's last proposed point is %r (round %d)"
+                                    % (i, x, self.last_point.get(i), t), round=t)
+                st.bump("validation_rounds")
 
     def after_round(self, ctx):
         t = self.t
@@ -165,37 +192,46 @@ class GpoOracle(Oracle):
         self.log.phase = "pull"
         rewards = [e for e in ev if e[0] == "reward"]
         i, w, Lh = self.phase_i, self.w, self.Lh
-        cur = len(self.log.instances) - 1
+        cur = self.server.get(i)
         if not self.finished and w >= Lh:
             self.val.setdefault(i - 1, []).append(ctx.r)
         for e in rewards:
             self.learner_rewards.setdefault(e[1], []).append(e[3])
         if not ctx.judging:
             return
-        if [e for e in ev if e[0] in ("new", "pull")]:
-            raise Violation("C09.route", "a learner was created/consulted inside receive_reward (round %d)" % t)
+        if [e for e in ev if e[0] == "pull"]:
+            raise Violation("C09.route", "a learner was consulted inside receive_reward (round %d)" % t)
         if self.finished:
             if rewards:
                 raise Violation("C09.finished", "a learner received a reward after all phases were over (round %d)" % t)
             return
         if w < Lh:
             if len(rewards) != 1 or rewards[0][1] != cur or float(rewards[0][3]) != float(ctx.r):
-                raise Violation("C09.route", "exploration round %d of phase %d: the reward must go to learner #%d only; seen %r"
+                raise Violation("C09.route", "exploration round %d of phase %d: the reward must go to learner #%r only; seen %r"
                                 % (w + 1, i, cur, [(e[1], e[3]) for e in rewards]), round=t)
         else:
             if rewards:
                 raise Violation("C09.route", "validation reward of phase %d was delivered to learner(s) %r" % (i, [e[1] for e in rewards]), round=t)
-            V = _attr(self.inner, "V_reward")
-            rew = self.val[i - 1]
-            if len(V) != i or not close(V[i - 1], sum(rew) / len(rew)):
-                raise Violation("C09.score", "score of phase %d is %r after %d validation rewards of mean %r (scores kept: %d) (round %d)"
-                                % (i, V[i - 1] if len(V) >= i else None, len(rew), sum(rew) / len(rew), len(V), t), round=t)
         if w == 2 * Lh - 1:
+            # the phase is over: its learner served exactly L rounds, and its point is scored by the mean of exactly the
+            # L validation rewards (a running mean kept during the phase is not prescribed)
             n_l = len(self.learner_rewards.get(cur, []))
-            if n_l != Lh or len(self.val.get(i - 1, [])) != Lh:
+            rew = self.val.get(i - 1, [])
+            if n_l != Lh or len(rew) != Lh:
                 raise Violation("C09.lengths", "phase %d ended with %d learner rounds and %d validation rewards, floor(n/2N) = %d"
-                                % (i, n_l, len(self.val.get(i - 1, [])), Lh), round=t)
+                                % (i, n_l, len(rew), Lh), round=t)
+            V = _attr(self.inner, "V_reward")
+            want = sum(rew) / len(rew)
+            if len(V) < i or not close(V[i - 1], want, 1e-9, max(abs(v) for v in rew)):
+                raise Violation("C09.score", "score of phase %d is %r after its %d validation rewards of mean %r (scores kept: %d) (round %d)"
+                                % (i, V[i - 1] if len(V) >= i else None, len(rew), want, len(V), t), round=t)
             ctx.extra["stats"].bump("phases_completed")
+
+
+def L_call(what, fn):
+    from ..world import call_lib
+
+    return call_lib(what, fn)
 
 
 # ------------------------------------------------------------------ POO
@@ -270,10 +306,16 @@ class PooOracle(Oracle):
         for e in rewards:
             self.rew.setdefault(e[1], []).append(e[3])
         if not ctx.judging:
+            for e in ev:
+                if e[0] == "new":
+                    self.rhos[e[1]] = e[3].get("rho")
             return
         st = ctx.extra["stats"]
-        if [e for e in ev if e[0] in ("new", "pull")]:
-            raise Violation("C10.route", "a learner was created/consulted inside receive_reward (round %d)" % t)
+        for e in ev:
+            if e[0] == "new":
+                self._check_new(e, t)  # WHEN a learner object is constructed is not prescribed
+        if [e for e in ev if e[0] == "pull"]:
+            raise Violation("C10.route", "a learner was consulted inside receive_reward (round %d)" % t)
         if len(rewards) != 1 or rewards[0][1] != self.server or float(rewards[0][3]) != float(ctx.r):
             raise Violation("C10.route", "round %d was served by learner #%r; its reward %r was delivered as %r"
                             % (t, self.server, ctx.r, [(e[1], e[3]) for e in rewards]), round=t)
@@ -290,7 +332,7 @@ class PooOracle(Oracle):
             want = sum(r) / len(r) if r else 0.0
             if Tm[lid] != len(r):
                 raise Violation("C10.count", "learner #%d has recorded count %r, it received %d rewards (round %d)" % (lid, Tm[lid], len(r), t), round=t)
-            if not close(V[lid], want):
+            if not close(V[lid], want, 1e-9, max((abs(v) for v in r), default=0.0)):
                 raise Violation("C10.score", "learner #%d has score %r, the mean of its %d rewards is %r (round %d)" % (lid, V[lid], len(r), want, t), round=t)
         st.bump("scores_judged")
         if len(V_algo) > 1:
@@ -301,9 +343,9 @@ class PooOracle(Oracle):
             return
         self.log.phase = "query"
         try:
-            x = _pt(algo.get_last_point())
+            x = _pt(L_call("get_last_point", algo.get_last_point))
             best = max(float(v) for v in V)
-            props = [_pt(V_algo[lid].pull(0)) for lid in range(len(V_algo)) if close(V[lid], best)]
+            props = [_pt(L_call("pull", lambda l=lid: V_algo[l].pull(0))) for lid in range(len(V_algo)) if close(V[lid], best)]
         finally:
             self.log.phase = "pull"
             self.seen = len(self.log.events)
